@@ -171,8 +171,10 @@ Example C06_reset_example :
   = [Some 22%Z; Some 20%Z].
 Proof. split; [vm_compute; repeat split; reflexivity|vm_compute; reflexivity]. Qed.
 
-(* ... and for histories that also MOVE-CONSTRUCT properties (inputs, evaluator-driven ones, observed ones): coq/PropMoveLazy.v - the
-   registry is untouched, every registered target, tree and leaf is the old one with the source renamed to the destination *)
+(* ... and for histories that also MOVE-CONSTRUCT properties (inputs, evaluator-driven ones, observed ones) and MOVE-ASSIGN them over a
+   property that no live binding reads (an unread input, or the target of another evaluator-driven binding - that binding dies and
+   leaves its evaluator's registry): coq/PropMoveLazy.v - every registered target, tree and leaf is the old one with the source
+   renamed to the destination *)
 Theorem C06_network_with_moves_one_pass :
   forall fn rtl ev, ev <> 0 -> forall f ops e w',
     PropMoveLazy.lazy_run3_ok fn rtl f world0 ops ->
@@ -193,6 +195,19 @@ Example C06_moves_example :
   PropMoveLazy.lazy_run3_ok fn true 7 world0 ops /\
   map (fun e => match e with EvVal v => v | _ => None end)
       (filter (fun e => match e with EvVal _ => true | _ => false end) (w_trace (run fn true 8 (ops ++ [BevEvalAll 0; PGet 11; PGet 2]))))
+  = [Some 10%Z; Some 8%Z].
+Proof. split; [vm_compute; repeat split; reflexivity|vm_compute; reflexivity]. Qed.
+
+(* non-vacuity: the evaluator-driven property 1 (= f1(0)) is move-ASSIGNED over the evaluator-driven property 3 (= f3(0)), whose binding dies;
+   property 2 = f2(1) now reads the new location; an assignment to the input and one evaluateAll bring 3 and 2 up to date, and the
+   dead binding of 3 is not evaluated (3 holds f1(7) = 8, not f3(7) = 10) *)
+Example C06_move_assignment_example :
+  let fn := fun (f : nat) (l : list Z) => Some (fold_right Z.add (Z.of_nat f) l) in
+  let ops := [PNew 0 1%Z; BevNew 0; PBind 1 (EOp1 1 (EProp 0)) (MEvaluator 0); PBind 2 (EOp1 2 (EProp 1)) (MEvaluator 0);
+              PBind 3 (EOp1 3 (EProp 0)) (MEvaluator 0); PMoveAssign 3 1; PSet 0 7%Z WSet] in
+  PropMoveLazy.lazy_run3_ok fn true 7 world0 ops /\
+  map (fun e => match e with EvVal v => v | _ => None end)
+      (filter (fun e => match e with EvVal _ => true | _ => false end) (w_trace (run fn true 8 (ops ++ [BevEvalAll 0; PGet 3; PGet 2]))))
   = [Some 10%Z; Some 8%Z].
 Proof. split; [vm_compute; repeat split; reflexivity|vm_compute; reflexivity]. Qed.
 
